@@ -44,9 +44,10 @@ class Path:
     events: List[Ev] = field(default_factory=list)
     conds: Dict[str, Tuple[bool, FrozenSet[str]]] = field(default_factory=dict)
     status: str = "live"     # live | return | raise | break | continue | truncated
+    consts: Dict[str, object] = field(default_factory=dict)     # locals whose value on this path is a known constant (flags, loop indices)
 
     def fork(self) -> "Path":
-        return Path(list(self.events), dict(self.conds), self.status)
+        return Path(list(self.events), dict(self.conds), self.status, dict(self.consts))
 
     def calls(self) -> Iterator[Ev]:
         return (e for e in self.events if e.kind == "call")
@@ -100,8 +101,20 @@ def _assigned_names(t: ast.AST) -> List[str]:
     return [x.id for x in ast.walk(t) if isinstance(x, ast.Name)]
 
 
+def _fold(e: ast.AST, consts: Dict[str, object]):
+    """constant folding of a test / right-hand side over the known constant locals; raises when not constant"""
+    from .finite_eval import ev, Unknown
+    if not any(isinstance(n, ast.Name) for n in ast.walk(e)) and not isinstance(e, ast.Constant):
+        raise Unknown("no local involved")
+    if any(isinstance(n, (ast.Call, ast.Attribute, ast.Subscript, ast.Lambda, ast.Await, ast.Yield)) for n in ast.walk(e)):
+        raise Unknown("not a pure expression over locals")
+    return ev(e, consts, {})
+
+
 def _invalidate(p: Path, names):
     names = set(names)
+    for nm in names:
+        p.consts.pop(nm, None)
     for k in [k for k, (_, ns) in p.conds.items() if ns & names]:
         del p.conds[k]
 
@@ -151,6 +164,13 @@ class _Enum:
             truth = p.conds[key][0] ^ inv
             p.events.append(Ev("cond", test, st, taken=truth))
             return [(p, truth)]
+        if p.consts and _names(test) and _names(test) <= set(p.consts):
+            try:
+                truth = bool(_fold(test, p.consts))
+                p.events.append(Ev("cond", test, st, taken=truth))
+                return [(p, truth)]
+            except Exception:
+                pass
         out = []
         names = _names(test)
         for truth in (True, False):
@@ -183,6 +203,14 @@ class _Enum:
                     q = q.fork()
                     q.events.append(Ev("iter", st, st, flags=frozenset({f"iter={k}"})))
                     _invalidate(q, _assigned_names(st.target))
+                    # for i, x in enumerate(xs[, start]): the index of the k-th iteration is a known constant
+                    if isinstance(st.iter, ast.Call) and isinstance(st.iter.func, ast.Name) and st.iter.func.id == "enumerate" \
+                            and isinstance(st.target, ast.Tuple) and len(st.target.elts) == 2 and isinstance(st.target.elts[0], ast.Name):
+                        start = 0
+                        s_arg = st.iter.args[1] if len(st.iter.args) > 1 else next((kw.value for kw in st.iter.keywords if kw.arg == "start"), None)
+                        if s_arg is None or (isinstance(s_arg, ast.Constant) and isinstance(s_arg.value, int)):
+                            start = s_arg.value if s_arg is not None else 0
+                            q.consts[st.target.elts[0].id] = start + k
                     for r in self.block(st.body, [q]):
                         if r.status == "continue":
                             r.status = "live"
@@ -303,6 +331,15 @@ class _Enum:
                 elif val.value is None:
                     p.conds[f"{nm} is None"] = (True, frozenset({nm}))
                     p.conds[nm] = (False, frozenset({nm}))
+            if isinstance(st, ast.Assign) and len(tgts) == 1 and isinstance(tgts[0], ast.Name):
+                try:
+                    v = _fold(val, p.consts)
+                    if isinstance(v, (bool, int, str, type(None))):
+                        p.consts[tgts[0].id] = v
+                except Exception:
+                    pass
+            elif isinstance(st, ast.AugAssign) and isinstance(st.target, ast.Name) and st.target.id in p.consts:
+                p.consts.pop(st.target.id, None)
             return [p]
         if isinstance(st, (ast.FunctionDef, ast.AsyncFunctionDef, ast.ClassDef)):
             p.events.append(Ev("def", st, st))
@@ -797,3 +834,65 @@ def predicate_table(fn: ast.AST) -> Tuple[List[str], Dict[Tuple[bool, ...], obje
         r = run(fn.body, env)
         table[bits] = None if r is _Ret else r
     return atoms, table
+
+
+# ---------------------------------------------------------------------------
+# forward substitution along a path (use-def chains made explicit): what a call finally receives, in terms of the function's inputs
+
+
+class _Subst(ast.NodeTransformer):
+    def __init__(self, env):
+        self.env = env
+
+    def visit_Name(self, node):
+        if isinstance(node.ctx, ast.Load) and node.id in self.env:
+            import copy
+            return copy.deepcopy(self.env[node.id])
+        return node
+
+    def visit_Lambda(self, node):
+        return node
+
+
+def _subst(e: ast.AST, env: Dict[str, ast.AST]) -> ast.AST:
+    import copy
+    return ast.fix_missing_locations(_Subst(env).visit(copy.deepcopy(e)))
+
+
+def substituted_paths(fn: ast.AST, unroll: int = 1) -> List[List[Tuple]]:
+    """For every structured path: its calls and tests with each local replaced by the expression it was last assigned on that path
+    (x = a; x += b; f(x)  reads  f(a + b)).  Items: ('call', Call) | ('cond', positive test, truth) | ('return', value) | ('raise', exc).
+    Locals assigned inside loops are substituted only within the same iteration."""
+    out = []
+    for p in enumerate_paths(fn, unroll=unroll):
+        env: Dict[str, ast.AST] = {}
+        items: List[Tuple] = []
+        for e in p.events:
+            if e.kind == "assign":
+                st = e.node
+                if isinstance(st, ast.Assign) and len(st.targets) == 1 and isinstance(st.targets[0], ast.Name):
+                    env[st.targets[0].id] = _subst(st.value, env)
+                elif isinstance(st, ast.AugAssign) and isinstance(st.target, ast.Name):
+                    cur = env.get(st.target.id, ast.Name(id=st.target.id, ctx=ast.Load()))
+                    env[st.target.id] = ast.fix_missing_locations(ast.BinOp(left=cur, op=st.op, right=_subst(st.value, env)))
+                else:
+                    for t in (st.targets if isinstance(st, ast.Assign) else [st.target]):
+                        for nm in _assigned_names(t):
+                            env.pop(nm, None)
+            elif e.kind == "iter":
+                for nm in _assigned_names(e.node.target):
+                    env.pop(nm, None)
+            elif e.kind == "call":
+                items.append(("call", _subst(e.node, env)))
+            elif e.kind == "cond" and isinstance(e.node, ast.expr):
+                t, tr = positive(_subst(e.node, env), bool(e.taken))
+                items.append(("cond", t, tr))
+            elif e.kind == "assert":
+                t, tr = positive(_subst(e.node, env), True)
+                items.append(("cond", t, tr))
+            elif e.kind == "return":
+                items.append(("return", None if e.node.value is None else _subst(e.node.value, env)))
+            elif e.kind == "raise":
+                items.append(("raise", None if e.node.exc is None else _subst(e.node.exc, env)))
+        out.append(items)
+    return out
